@@ -24,6 +24,8 @@ PROBES = [
     {"mode": "quota", "kind": "code", "max": 2, "pre": 1, "threads": 2, "sched": [0, 1, 0, 1]},
     {"mode": "quota", "kind": "mapping", "max": 2, "pre": 1, "threads": 2, "sched": [0, 1, 0, 1]},
     {"mode": "qfault", "kind": "mapping", "max": 2},
+    # two logins of one client: does UpdateAuth remove the connection the client id resolved to (/repo eb41b39)?
+    {"mode": "reg", "kind": "control", "max": 5, "ops": [[0, 1, 10], [2, 1, 7], [0, 2, 20], [2, 2, 7]]},
 ]
 
 
@@ -160,7 +162,7 @@ def case_value(c, o, variants):
                 [[a, b] for a, b in o["counts"]], list(o["outcomes"])]
     if m == "reg":
         return [1, 0 if c["kind"] == "tunnel" else 1, c["max"], [list(op) for op in c["ops"]],
-                [bool(x) for x in o["outcomes"]], [list(k) for k in o["keys"]]]
+                [bool(x) for x in o["outcomes"]], [list(k) for k in o["keys"]], variants["auth_evicts"]]
     if m == "mapseq":
         # a counter below zero cannot be written as a model value: map it to a number no model run produces
         return [2, variants["mapping"], c["max"], [list(op) for op in c["ops"]],
@@ -229,7 +231,8 @@ def run(ctx, only_cases=None):
                 # per-client admission marker around count + create present?  (pinned: count/count/create/create exceeds)
                 "quota_code": 0 if pr[2]["final"] == 3 else 1, "quota_mapping": 0 if pr[3]["final"] == 3 else 1,
                 # does the activation's listing turn a failing read into an under-count?  (2 = Open policy, 0 = aborts)
-                "mapping_fault": 2 if 2 in pr[4]["outcomes"] else 0, "code_fault": 0}
+                "mapping_fault": 2 if 2 in pr[4]["outcomes"] else 0, "code_fault": 0,
+                "auth_evicts": 1 if pr[5]["keys"][-1] == [2] else 0}
 
     if only_cases is not None:
         cases = only_cases
@@ -340,6 +343,7 @@ def run(ctx, only_cases=None):
         "model_vs_impl_cases": len(terms), "model_vs_impl_mismatches": len(mism), "impl_property_failures": nfail,
         "impl_property_failures_by_key": fail_keys,
         "tree_variants_detected": dict({k: ("pinned" if variants[k] == 0 else "repaired") for k in ("server", "mapping", "quota_code", "quota_mapping")},
+                                       updateauth_removes_previous_holder=bool(variants["auth_evicts"]),
                                        code_count_on_read_fault="aborts (fail closed)",
                                        activation_count_on_read_fault="lenient listing (fails open)" if variants["mapping_fault"] == 2 else "aborts (fail closed)"),
         "read_fault_positions_tried": sum(len(o["outcomes"]) for c, o in zip(cases, outs) if c["mode"] == "qfault"),
